@@ -1,24 +1,27 @@
 from cfg.common import FLOAT_ASSUMPTION, NOTE_COMMON
+from cfg.kernels_pre import regen as regen_kernels, KERNEL_THEOREMS, KERNEL_TRUSTED, KERNEL_ASSUMPTION
 
 PROP = {
     'anchors': [('utils/mod.rs', 'interp1d'), ('utils/mod.rs', 'interp3d'), ('utils/mod.rs', 'find_interp_indices'), ('utils/mod.rs', 'compute_interp_diff'), ('consist/locomotive/powertrain/fuel_converter.rs', 'solve_energy_consumption'), ('consist/locomotive/powertrain/generator.rs', 'set_pwr_in_req'), ('consist/locomotive/powertrain/electric_drivetrain.rs', 'set_pwr_in_req'), ('consist/locomotive/powertrain/reversible_energy_storage.rs', 'solve_energy_consumption'), ('consist/locomotive/locomotive_model.rs', 'set_pwr_aux'), ('consist/locomotive/conventional_loco.rs', 'solve_energy_consumption')],
     'blocks': ['pt'],
-    'proof_modules': ['C08'],
-    'namespaces': ['Altrios.Proofs.C08', 'Altrios.Proofs.InterpL'],
+    'pre': [regen_kernels],
+    'trusted_extra': [KERNEL_TRUSTED],
+    'proof_modules': ['C08', 'Kernels'],
+    'namespaces': ['Altrios.Proofs.C08', 'Altrios.Proofs.InterpL', 'Altrios.Proofs.Kernels'],
     'required_theorems': [
         'Altrios.Proofs.InterpL.interp1d_range', 'Altrios.Proofs.InterpL.interp3d_range',
         'Altrios.Proofs.C08.C08_fc_step', 'Altrios.Proofs.C08.C08_gen_step', 'Altrios.Proofs.C08.C08_edrv_step',
         'Altrios.Proofs.C08.C08_res_step', 'Altrios.Proofs.C08.C08_engine_off_fc', 'Altrios.Proofs.C08.C08_engine_off_loco',
         'Altrios.Proofs.C08.C08_loco_step', 'Altrios.Proofs.C08.C08_loco_dyn_zero', 'Altrios.Proofs.C08.C08_walk_monotone',
         'Altrios.Proofs.C08.C08_walk_step',
-    ],
+    ] + KERNEL_THEOREMS,
     'nontrivial_stats': ['pt.loco.traction', 'pt.loco.braking', 'pt.loco.engine_off_step',
                          'pt.consist.traction_', 'pt.consist.braking_'],
     'rule': 'as C01; additionally interp1d / interp3d are called directly on shipped and generated maps with queries at, '
             'between and outside the knots and +-1 ulp, and the fuel converter alone with engine on/off',
     'assumptions': [FLOAT_ASSUMPTION,
                     'all efficiency-map values lie in (0,1] and time steps are non-negative (the property\'s own domain); '
-                    'no two adjacent x-knots of a 1-D map are equal (guards the IEEE division)'],
+                    'no two adjacent x-knots of a 1-D map are equal (guards the IEEE division)'] + [KERNEL_ASSUMPTION],
 }
 
 TEXT = {
